@@ -37,6 +37,37 @@ Qed.
 Lemma sort_sorted l : Sorted entry_le (sort_by_pos l).
 Proof. induction l as [|x l IH]; cbn; [constructor|now apply insert_sorted]. Qed.
 
+(** the sort is stable: inside every class of equal (line, column) the original order is kept.
+    Together with [sort_sorted] and [sort_perm] this is the contract of Rust's sort_by_key. *)
+Definition same_linecol (q : pos) (x : def * list ext) : bool :=
+  pos_leb q (d_pos (fst x)) && pos_leb (d_pos (fst x)) q.
+
+Lemma pos_leb_trans a b c : pos_leb a b = true -> pos_leb b c = true -> pos_leb a c = true.
+Proof. rewrite !pos_leb_iff. lia. Qed.
+
+Lemma insert_stable q x l :
+  filter (same_linecol q) (insert_by_pos x l) = filter (same_linecol q) (x :: l).
+Proof.
+  induction l as [|y l IH]; [reflexivity|]. cbn [insert_by_pos].
+  destruct (pos_leb (d_pos (fst x)) (d_pos (fst y))) eqn:E; [reflexivity|].
+  cbn [filter] in *. rewrite IH.
+  destruct (same_linecol q x) eqn:Ex, (same_linecol q y) eqn:Ey; try reflexivity.
+  exfalso. unfold same_linecol in Ex, Ey.
+  apply andb_prop in Ex. apply andb_prop in Ey. destruct Ex as [_ Ex]. destruct Ey as [Ey _].
+  rewrite (pos_leb_trans _ _ _ Ex Ey) in E. discriminate.
+Qed.
+
+Lemma sort_stable q l : filter (same_linecol q) (sort_by_pos l) = filter (same_linecol q) l.
+Proof.
+  induction l as [|x l IH]; [reflexivity|]. cbn [sort_by_pos fold_right].
+  fold (sort_by_pos l). rewrite insert_stable. cbn [filter]. now rewrite IH.
+Qed.
+
+Lemma sort_contract l :
+  Sorted entry_le (sort_by_pos l) /\ Permutation (sort_by_pos l) l /\
+  forall q, filter (same_linecol q) (sort_by_pos l) = filter (same_linecol q) l.
+Proof. split; [apply sort_sorted|]. split; [apply sort_perm|]. intros q. apply sort_stable. Qed.
+
 Definition item_pos_le (a b : item) : Prop :=
   match a, b with IDef x, IDef y => pos_leb (d_pos x) (d_pos y) = true | _, _ => False end.
 
